@@ -297,6 +297,23 @@ func (fs *Facts) applyCond(s state, cond ssa.Value, truth bool) (state, bool) {
 		cond = u.X
 		truth = !truth
 	}
+	if c, isCall := cond.(*ssa.Call); isCall && !truth {
+		// a predicate of the package that answers true whenever its slice argument is empty
+		// (Path.isLeaf and the like): answering false, the argument has at least one element
+		if sf := staticCallee(c); sf != nil && len(c.Call.Args) == 1 && trueWhenEmpty(sf, fs.depth) {
+			t := term{v: strip(c.Call.Args[0]), isLen: true}
+			f := refineInt(s.get(t), token.GEQ, 1)
+			if f.empty() {
+				return s, false
+			}
+			out := state{}
+			for k, v := range s {
+				out[k] = v
+			}
+			out[t] = f
+			return out, true
+		}
+	}
 	bo, ok := cond.(*ssa.BinOp)
 	if !ok {
 		return s, true
@@ -901,4 +918,41 @@ func (ef *entryFacts) entry(fn *ssa.Function) state {
 	}
 	ef.memo[fn] = out
 	return out
+}
+
+var trueWhenEmptyMemo = map[*ssa.Function]int{}
+
+// trueWhenEmpty: fn has one slice parameter and one bool result, and every
+// return reachable when that parameter is empty is the constant true.
+func trueWhenEmpty(fn *ssa.Function, depth int) bool {
+	if fn == nil || fn.Blocks == nil || len(fn.Params) != 1 || fn.Signature.Results().Len() != 1 || depth > 2 {
+		return false
+	}
+	if _, isSlice := fn.Params[0].Type().Underlying().(*types.Slice); !isSlice {
+		return false
+	}
+	switch trueWhenEmptyMemo[fn] {
+	case 1:
+		return true
+	case 2:
+		return false
+	}
+	trueWhenEmptyMemo[fn] = 2
+	fs := NewFactsEntry(fn, nil, state{term{v: fn.Params[0], isLen: true}: fact{lo: 0, hi: 0}})
+	fs.depth = depth + 1
+	n := 0
+	for _, ret := range returnsOf(fn) {
+		if _, reach := fs.At(ret.Block()); !reach {
+			continue
+		}
+		n++
+		if b, ok := constBool(ret.Results[0]); !ok || !b {
+			return false
+		}
+	}
+	if n == 0 {
+		return false
+	}
+	trueWhenEmptyMemo[fn] = 1
+	return true
 }
